@@ -45,4 +45,18 @@ def run(tier, replay=None):
     if not replay or is_elab_replay:
         E.run(out, build, problems, PROP, tier, ['spec_C14_stacks', 'spec_C14_kinds', 'spec_C04', 'spec_C03_selection'], E.default_gen, 500, 10000, RULE_E, replay=replay,
               known={'spec_C04': 'kf_C04_accept_all', 'spec_C03_selection': 'kf_C03_newstyle'})
+    if not replay:
+        # a scenario outside the case language of the histories (a foreign decorator between contract decorators that
+        # passes __wrapped__ on but none of the attributes of the function beneath it): run as it stands, a search for a
+        # failing input only
+        import common as C
+        res = C.run_impl("impl_probe.py", {"probes": ["wrapper_that_passes_no_attributes_on"]})
+        out.coverage["scenario_probes"] = res
+        r = res.get("wrapper_that_passes_no_attributes_on", {})
+        if r.get("reproduced"):
+            out.violation("a decorator stack with a foreign decorator that copies no attributes does not share one checker, "
+                          "rejects a legal snapshot or does not enforce all its contracts",
+                          {"probe": "wrapper_that_passes_no_attributes_on", "result": r, "script": "harness/impl_probe.py"})
+        elif r.get("reproduced") is None:
+            out.violation("the scenario probe did not run: %s" % r, {"probe": r}, found_input=False)
     return out.finish()
